@@ -79,6 +79,7 @@ class PacketzQueue(JSONBase):
         q = self.path.open(
             "rt",
             encoding="utf-8",
+            errors="replace",  # a damaged byte must only spoil its own line
             buffering=1024 * 256,
         )
         assert self._queue_healthy(q)
